@@ -119,6 +119,7 @@ struct DocGen {
         int idn = out.nElems++; --budget; out.ids.push_back("n" + std::to_string(idn)); out.names.push_back("doc");
         rootOpen = "<doc id=\"n0\" rk=\"" + std::to_string(g.below(100000)) + "\"";
         if (c.ns) rootOpen += std::string(" xmlns:p1=\"") + NS1 + "\" xmlns:p2=\"" + NS2 + "\"";
+        if (c.ns && g.chance(1, 8)) rootOpen += " xmlns:xml=\"http://www.w3.org/XML/1998/namespace\"";      // legal, almost never written
         rootOpen += ">";
         int top = (int)g.range(2, c.maxFan + 2);
         for (int i = 0; i < top && budget > 0; ++i) {
@@ -286,6 +287,7 @@ struct GenSS {
     std::string xsl;
     std::map<std::string, std::string> resources;   // href -> bytes (imports, includes, document() targets)
     std::vector<std::string> features;
+    std::vector<std::pair<std::string, std::string>> expect;   // (feature, canonical text that the observation record of that feature must contain)
 };
 
 // all feature ids the generator knows
@@ -296,14 +298,14 @@ inline const std::vector<std::string>& allFeatures() {
         "lre", "message", "modes", "sort2", "comment-pi", "exslt-set", "exslt-math", "exslt-str", "genid", "lang", "sysprop", "param", "ifbool",
         "union", "preds", "valnum", "apply-imports", "text-nodes", "ns-axis", "doctype-node", "attr-nodes", "number-value", "bigfmt", "xalan-ext", "docfn", "avt-ns", "extfn", "paramuse", "gate", "num-gate", "sortlang", "num-value", "lazyvar", "manyrtf", "deeprec", "padsupp", "top-nodes", "doe", "sort-gate", "bignum-alpha",
         "num-punct", "num-exotic", "ext-evaluate", "rtf-key", "key-prefixed", "key-variant",
-        "nsalias", "withparam", "fmtnum-pat", "doc2", "unparsed-entity", "nsfix", "numconv", "keynodeset", "randexpr", "manydf", "axes-matrix", "num-groupsep", "sort-manylang"
+        "nsalias", "withparam", "fmtnum-pat", "doc2", "unparsed-entity", "nsfix", "numconv", "keynodeset", "randexpr", "manydf", "axes-matrix", "num-groupsep", "sort-manylang", "attr-replace"
     };
     return f;
 }
 
 struct SSGen {
     Rng& g; const SSCfg& c; const GenDoc& d; GenSS out;
-    std::string top, perNode, rootBody, extraTemplates;
+    std::string top, perNode, rootBody, extraTemplates, extraTop2;
     SSGen(Rng& g_, const SSCfg& c_, const GenDoc& d_) : g(g_), c(c_), d(d_) {}
     bool on(const char* f) { if (c.on.count(f)) { out.features.push_back(f); return true; } return false; }
     static std::string o(const std::string& f, const std::string& body) { return "<o f=\"" + f + "\" n=\"{@id}\">" + body + "</o>"; }
@@ -422,6 +424,11 @@ struct SSGen {
         if (on("num-groupsep")) perNode += o("num-groupsep", "<xsl:number value=\"(count(preceding::*) + 1) * 98765432101\" grouping-separator=\"{substring(',,', 1, 1 + number(@v = 7 or @v = 3))}\" grouping-size=\"{1 + count(*) mod 4}\"/>|<xsl:number value=\"(count(preceding::*) + 1) * 987654321\" grouping-separator=\"'\" grouping-size=\"3\"/>|<xsl:number value=\"count(preceding::*) * 1234567 + 123456789012\" grouping-separator=\".\" grouping-size=\"2\" format=\"01\"/>");
         // more sort languages in one transformation than the collator cache holds (10): the language comes from the node
         if (on("sort-manylang")) perNode += "<o f=\"sort-manylang\" n=\"{@id}\"><xsl:for-each select=\"*\"><xsl:sort select=\"@k\" lang=\"{substring('dafrenesitnlsvfiplptcshuroelbgtr', 1 + 2 * (count(preceding::*) mod 16), 2)}\" case-order=\"upper-first\"/><xsl:value-of select=\"@id\"/>,</xsl:for-each></o>";
+        // an attribute added twice to one element: the later value wins, also when it is shorter or empty.  What comes out is known beforehand
+        // (GenSS::expect): every form runs through the same pending-attribute list, so comparing forms with each other would show nothing.
+        if (on("attr-replace")) { extraTop2 += "<xsl:attribute-set name=\"arl\"><xsl:attribute name=\"d\">a-rather-long-value-from-the-set</xsl:attribute></xsl:attribute-set>";
+            perNode += "<xsl:if test=\"not(ancestor::*)\"><o f=\"attr-replace\" n=\"{@id}\"><e a=\"placeholder-identifier\" b=\"some value\" c=\"x\"><xsl:attribute name=\"a\">K</xsl:attribute><xsl:attribute name=\"b\"/><xsl:attribute name=\"c\">xy</xsl:attribute></e><f xsl:use-attribute-sets=\"arl\" d=\"s\"/><xsl:element name=\"g\" use-attribute-sets=\"arl\"><xsl:attribute name=\"d\">t</xsl:attribute></xsl:element></o></xsl:if>";
+            out.expect.emplace_back("attr-replace", "E{|e|^a=K;^b=;^c=xy;|}E{|f|^d=s;|}E{|g|^d=t;|}"); }
         // many result tree fragments alive at the same time (arena blocks of the fragment allocators hold 10)
         if (on("manyrtf")) { std::string vars, uses; for (int i = 0; i < 13; ++i) { std::string n = "mr" + std::to_string(i); vars += "<xsl:variable name=\"" + n + "\"><r" + std::to_string(i) + "><xsl:value-of select=\"@id\"/></r" + std::to_string(i) + ">t" + std::to_string(i) + "</xsl:variable>"; uses += "<xsl:value-of select=\"string-length($" + n + ")\"/>,"; }
             perNode += "<xsl:if test=\"count(preceding::*) mod 4 = 0\">" + vars + "<o f=\"manyrtf\" n=\"{@id}\">" + uses + "<xsl:copy-of select=\"$mr12\"/></o></xsl:if>"; }
@@ -493,7 +500,7 @@ struct SSGen {
         if (c.on.count("gate") || c.on.count("num-gate")) s += "<xsl:variable name=\"GATE\"><xsl:if test=\"$P1 = 'abort'\"><xsl:message terminate=\"yes\">gate closed</xsl:message></xsl:if><xsl:if test=\"$P1 = 'badkey'\"><xsl:value-of select=\"count(key('nosuchkey', 1))\"/></xsl:if>open</xsl:variable>\n";
         if (c.on.count("lazyvar")) s += "<xsl:variable name=\"LAZY1\" select=\"sum(//@v[. &gt; 0])\"/><xsl:variable name=\"LAZY2\" select=\"//*[@k][position() &lt; 4]\"/>\n";
         if (c.docFn) out.resources["aux.xml"] = "<?xml version=\"1.0\"?><aux><x id=\"x1\">one</x><x id=\"x2\">two</x><y><x id=\"x3\">three</x></y></aux>";
-        s += top + "\n";
+        s += top + extraTop2 + "\n";
         s += "<xsl:template match=\"/\"><" + c.rootName + " total=\"{$G1}\" ctx=\"{position()}/{last()}/{$GP}\">" + rootBody;
         if (c.useInclude) s += "<o f=\"include\" n=\"/\"><xsl:call-template name=\"incT\"><xsl:with-param name=\"x\" select=\"$G1\"/></xsl:call-template></o>";
         if (c.useImport) s += "<o f=\"import-var\" n=\"/\"><xsl:value-of select=\"$IMPV\"/></o>";
